@@ -414,11 +414,37 @@ class _resolve_called_lambdas(ast.NodeTransformer):
         # Not inlined: the call stays, its parts are still resolved.
         return self.generic_visit(node)
 
+    def visit_Lambda(self, node: ast.Lambda) -> Any:
+        "The parameters of a lambda that stays in the tree hide arguments of the same name"
+        self._arg_map_list.append({a.arg: None for a in node.args.args})
+        v = self.generic_visit(node)
+        self._arg_map_list.pop()
+        return v
+
+    def visit_ListComp(self, node: Any) -> Any:
+        "So do the targets of a comprehension (its first iterable is in the enclosing scope)"
+        gens = node.generators
+        gens[0].iter = self.visit(gens[0].iter)
+        self._arg_map_list.append(
+            {n.id: None for g in gens for n in ast.walk(g.target) if isinstance(n, ast.Name)}
+        )
+        for i, g in enumerate(gens):
+            if i > 0:
+                g.iter = self.visit(g.iter)
+            g.ifs = [self.visit(c) for c in g.ifs]
+        for f in ("elt", "key", "value"):
+            if hasattr(node, f):
+                setattr(node, f, self.visit(getattr(node, f)))
+        self._arg_map_list.pop()
+        return node
+
+    visit_SetComp = visit_GeneratorExp = visit_DictComp = visit_ListComp
+
     def visit_Name(self, node: ast.Name) -> Any:
         "Look through the arg map to see if it is a argument"
         for arg_map in reversed(self._arg_map_list):
             if node.id in arg_map:
-                return arg_map[node.id]
+                return node if arg_map[node.id] is None else arg_map[node.id]
         return node
 
 
